@@ -70,7 +70,7 @@ def obligations(tier):
     cs = []
     for k in kinds:
         cs += [{'kind': k, 'pad': a} for a in range(10)] if k in heavy else [{'kind': k}]
-    cs += [{'kind': k, 'culture': 'zh-cn'} for k in ('number', 'percentage', 'currency', 'dimension', 'datetime')]
+    cs += [{'kind': k, 'culture': 'zh-cn'} for k in ('number', 'percentage', 'currency', 'dimension', 'age', 'temperature', 'datetime')]
     if tier == 'thorough':
         cs += [{'kind': k, 'culture': c} for c in ('es-es', 'fr-fr', 'pt-br', 'de-de') for k in ('number', 'currency', 'dimension', 'datetime') if not (c == 'de-de' and k == 'dimension')]
     obs.append(Ob('O1.9-composed', 'sx', 'harness.compose:h_compose', twin='harness.compose:t_compose', slices=cs, timeout=max(t, 300),
